@@ -34,6 +34,10 @@ func init() {
 		"verifYield":       stubYield,
 		"verifMaxAlloc":    vMaxAlloc,
 		"verifParam":       vParam,
+		"verifPreemptBound": func(it *Interp, fr *frame, fn *ssa.Function, a []Value, site ssa.Instruction) Value {
+			it.sched.preemptBound = int(a[0].(*Term).k)
+			return nil
+		},
 		"verifAnd":         func(it *Interp, fr *frame, fn *ssa.Function, a []Value, site ssa.Instruction) Value { return it.tt.BAnd(a[0].(*Term), a[1].(*Term)) },
 		"verifOr":          func(it *Interp, fr *frame, fn *ssa.Function, a []Value, site ssa.Instruction) Value { return it.tt.BOr(a[0].(*Term), a[1].(*Term)) },
 		"verifImplies":     func(it *Interp, fr *frame, fn *ssa.Function, a []Value, site ssa.Instruction) Value { return it.tt.BOr(it.tt.BNot(a[0].(*Term)), a[1].(*Term)) },
